@@ -1,12 +1,9 @@
 #!/usr/bin/env python3
-"""Rebuild the detect entries of /verif/seeded/results.json from the logs of the isolated detection runs (vp run), oldest first."""
+"""Update the detect entries of /verif/seeded/results.json from the logs of the isolated detection runs (vp run), oldest first."""
 import glob, json, os, re
 base = '/verif/seeded/results.json'
 res = json.load(open(base)) if os.path.exists(base) else {}
-for k, v in res.items():
-    for kk in list(v):
-        if kk.startswith('detect:'):
-            del v[kk]
+# entries already recorded are kept (logs of earlier sessions are gone after a restore); newer logs override them
 logs = sorted(glob.glob('/root/.vp/runs/*/log'), key=lambda p: int(re.search(r'runs/(\d+)/', p).group(1)))
 for p in logs:
     n = int(re.search(r'runs/(\d+)/', p).group(1))
